@@ -78,6 +78,9 @@ def operand_list_shapes() -> List[Tuple[str, Str, List[str]]]:
         ("(a,b,c), register, immediate", T("(%", A, ",%", B, ",", C, "),%", R, ",$", V), ["(%<A>,%<B>,<C>)", "%<R>", "$<V>"]),
         ("immediate, k(,b,c)", T("$", V, ",", K, "(,%", B, ",", C, ")"), ["$<V>", "<K>(,%<B>,<C>)"]),
         ("three registers", T("%", R, ",%", A, ",%", B), ["%<R>", "%<A>", "%<B>"]),
+        ("immediate, memory, register (memory reference in the middle)", T("$", V, ",", *mem, ",%", R), ["$<V>", "<K>(%<A>,%<B>,<C>)", "%<R>"]),
+        ("register, (a,b,c), register", T("%", R, ",(%", A, ",%", B, ",", C, "),%", A2), ["%<R>", "(%<A>,%<B>,<C>)", "%<A2>"]),
+        ("memory, memory, register", T(*mem, ",", *mem2, ",%", R), ["<K>(%<A>,%<B>,<C>)", "<K2>(%<A2>,%<B2>,<C2>)", "%<R>"]),
         ("single register", T("%", R), ["%<R>"]),
         ("register, (a)", T("%", R, ",(%", A, ")"), ["%<R>", "(%<A>)"]),
     ]
@@ -123,11 +126,15 @@ def instruction_lines() -> List[Tuple[str, Str, str]]:
         ("direct call with <symbol>", T("  ", AD, ":\t", BYTES[3], "\tcall   ", TG, " <", SY, ">"), "<ADDR>::call,<TGT>"),
         ("direct jmp with <symbol+off>", T("  ", AD, ":\t", BYTES[3], "\tjmp    ", TG, " <", SY, "+0x", H("OFF", "hex"), ">"), "<ADDR>::jmp,<TGT>"),
         ("k(,b,c), register", T("  ", AD, ":\t", BYTES[2], "\t", MN, "    ", K, "(,%", B, ",", C, "),%", R), "<ADDR>::<MN>,[+%<B>*<C>+<K>],%<R>"),
+        ("immediate, k(a,b,c), register", T("  ", AD, ":\t", BYTES[2], "\t", MN, "    $", V, ",", K, "(%", A, ",%", B, ",", C, "),%", R),
+         "<ADDR>::<MN>,<V>,[%<A>+%<B>*<C>+<K>],%<R>"),
         ("no indentation", T(AD, ":\t", BYTES[1], "\t", MN, "    %", R, ",%", A), "<ADDR>::<MN>,%<R>,%<A>"),
         ("deep indentation", T("        ", AD, ":\t", BYTES[1], "\t", MN, "    %", R, ",%", A), "<ADDR>::<MN>,%<R>,%<A>"),
         ("one blank before the operands", T("  ", AD, ":\t", BYTES[1], "\t", MN, " %", R, ",%", A), "<ADDR>::<MN>,%<R>,%<A>"),
         ("trailing blanks", T("  ", AD, ":\t", BYTES[1], "\t", MN, "    %", R, ",%", A, "   "), "<ADDR>::<MN>,%<R>,%<A>"),
         ("(bad)", T("  ", AD, ":\t", "ff                   ", "\t(bad)"), "<ADDR>::bad,"),
+        ("data16 prefix, no operands", T("  ", AD, ":\t", "66 0f 05             ", "\tdata16 ", MN), "<ADDR>::<MN>,"),
+        ("data16 prefix, with operands", T("  ", AD, ":\t", BYTES[2], "\tdata16 ", MN, "    ", K, "(%", A, "),%", R), "<ADDR>::<MN>,[%<A>+<K>],%<R>"),
     ]
     return out
 
@@ -142,7 +149,8 @@ def presentation_variants() -> List[Tuple[str, List[Str]]]:
     g1 += [T("  ", AD, ":\t", BYTES[2], "\t", *core, "# glued comment"), T("  ", AD, ":\t", BYTES[2], "\t", *core, "#")]
     call = [T(ind, AD, ":\t", BYTES[3], "\tcall   ", TG, tail) for ind in ("  ", "    ") for tail in ("", " <puts@plt>", " <main+0x1a>")]
     call += [T("  ", AD, ":\t", BYTES[3], "\tcall   ", TG, " <", SY, ">")]
-    return [(f"k(a),%r in {len(g1)} presentations", g1), (f"direct call in {len(call)} presentations", call)]
+    d16 = [T("  ", AD, ":\t", BYTES[2], "\tdata16 ", *core, tail) for tail in ("", "        # plain comment", "        # data16 again", "   ")]
+    return [(f"k(a),%r in {len(g1)} presentations", g1), (f"data16-prefixed k(a),%r in {len(d16)} presentations", d16), (f"direct call in {len(call)} presentations", call)]
 
 
 def other_lines() -> List[Tuple[str, Any]]:
